@@ -3,7 +3,7 @@
    outstanding keep-alive request). T = timeout, I = interval (ms); the command line accepts every pair of
    positive whole seconds (FactsTimed.cli_positive_seconds), the theorems cover every Z. *)
 From Coq Require Import List NArith ZArith Bool Lia.
-From AnyTLS Require Import Generated Pool Heartbeat HeartbeatProofs HeartbeatSimProofs TimedLegacy.
+From AnyTLS Require Import Generated Pool Heartbeat HeartbeatProofs HeartbeatSimProofs TimedLegacy HeartbeatStall HeartbeatStallProofs.
 Import ListNotations.
 Open Scope Z_scope.
 
@@ -75,6 +75,25 @@ Print Assumptions C14_refuted_pinned_rule.
 Theorem C14_pinned_rule_sound_class : forall I T, 0 < I -> 0 < T -> (legacy_sound I T <-> T mod I = 0).
 Proof. exact C14_legacy_sound_class. Qed.
 Print Assumptions C14_pinned_rule_sound_class.
+
+(* the monitor's own write. All theorems above are about the monitor whose HeartRequest write returns at once. With
+   writes that always return, the monitor that may stall (Model/HeartbeatStall.v) is that monitor: *)
+Theorem C14_writes_return_refines : forall T evs st,
+  w_blocked st = false ->
+  hbw_run T st (map (fun e => (e, false)) evs) = {| w_hb := hb_run T (w_hb st) evs; w_blocked := false |}.
+Proof. exact hbw_run_never_stalls. Qed.
+Print Assumptions C14_writes_return_refines.
+
+(* KNOWN FINDING F4 (known_findings.json: F4-stalled-transport-monitor-never-fires): if the write of one tick never returns
+   -- the transport is full and the peer no longer reads, or the writer mutex is held by such a write -- the task stays
+   inside that await: right after an answer (open, nothing outstanding), for every later sequence of ticks and every
+   horizon t, the session is never closed. "Closed within timeout + interval of the last answer" fails for this class of
+   peers; the correspondence check exhibits it on the real code (driver hb, mode z) *)
+Theorem C14_known_F4_stalled_write_never_detected : forall T st0 s more t,
+  w_blocked st0 = false -> hb_closed (w_hb st0) = None -> hb_out (w_hb st0) = None ->
+  hb_closed (w_hb (hbw_expire T (hbw_run T st0 ((HTick s, true) :: more)) t)) = None.
+Proof. exact stalled_write_never_detected. Qed.
+Print Assumptions C14_known_F4_stalled_write_never_detected.
 
 (* non-vacuity: I = 30 s, T = 10 s (timeout < interval); the peer answers after 9.999 s each time: the trace is
    time-ordered, satisfies peer_in_time, and stays open; when the peer falls silent after its answer at
